@@ -439,6 +439,40 @@ func c12(c *Ctx) {
 		}
 	}
 
+	// ---- R12.W ----------------------------------------------------------------------------------
+	r.Rule("R12.W", "Store replaces the whole file (WriteFile / Create / OpenFile with O_TRUNC / write-then-rename): the last store wins byte for byte", 1)
+	if f := c.P.Func(load.SessPkg, "*genericFileSessionLoader", "Store"); f != nil {
+		verdict, detail := "", ""
+		for _, cs := range an.Calls(f) {
+			switch cs.Name {
+			case "io/ioutil.WriteFile", "os.WriteFile", "os.Create", "os.Rename":
+				if verdict == "" {
+					verdict, detail = "ok", cs.Name
+				}
+			case "os.OpenFile":
+				flags, isConst := an.ConstInt(cs.Common.Args[1])
+				const oTrunc = 0x200 // syscall.O_TRUNC on linux, darwin: 0x400, windows: 0x200
+				trunc := isConst && (flags&0x200 != 0 || flags&0x400 != 0)
+				if !isConst {
+					verdict, detail = "undecided", "os.OpenFile with non-constant flags"
+				} else if !trunc {
+					verdict, detail = "bad", sprintf("os.OpenFile(path, %#x, …) without O_TRUNC: a shorter session written over a longer one leaves the old tail behind and the file no longer parses", flags)
+				} else if verdict == "" {
+					verdict, detail = "ok", "os.OpenFile with O_TRUNC"
+				}
+				_ = oTrunc
+			}
+		}
+		switch verdict {
+		case "ok":
+			r.Hold("R12.W", "store:whole-file-write", c.pos(f.Pos()), "the session bytes are written with "+detail)
+		case "bad":
+			r.Violate("R12.W", "store:whole-file-write", c.pos(f.Pos()), detail)
+		default:
+			r.Undecide("R12.W", "store:whole-file-write", c.pos(f.Pos()), "no recognised whole-file write idiom in Store ("+detail+")")
+		}
+	}
+
 	// ---- R12.R ----------------------------------------------------------------------------------
 	if f := c.fn("R12.R", load.RootMod, "*MTProto", "CreateConnection"); f != nil {
 		var calls []ssa.Instruction
